@@ -16,8 +16,8 @@ from vlib.sem import Unsupported, kstep
 from vlib.s2z import Tr, at_n, Untranslatable
 from vlib import momentcheck as mc
 
-TESTS = "/repo/tests/unsolvable_benchmarks/"
-DEF = "/repo/benchmarks/defective/"
+TESTS = polar_iface.REPO + "/tests/unsolvable_benchmarks/"
+DEF = polar_iface.REPO + "/benchmarks/defective/"
 CASES = [
     (TESTS + "deg-5.prob", ["x", "y"], 1, None), (TESTS + "fibonaccitrace.prob", ["x", "y", "z"], 3, None), (TESTS + "fibonaccitrace.prob", ["x", "y", "z"], 3, 1),
     (TESTS + "genfibonaccitrace.prob", ["x", "y", "z"], 3, None), (TESTS + "markov-triples-random.prob", ["a", "b", "c"], 3, 1), (TESTS + "markov-triples-toggle.prob", ["a", "b", "c"], 3, 1),
